@@ -66,7 +66,7 @@ def rule_r1(p, res):
         parts = []
         if ok:
             a0 = tv.args[0]
-            parts = [x for x in (a0.elts if isinstance(a0, (ast.Tuple, ast.List)) else tv.args)]
+            parts = [expand(x, d) for x in (a0.elts if isinstance(a0, (ast.Tuple, ast.List)) else tv.args)]
         okp = len(parts) == 2 and norm(parts[0]) == "self._trimmed_eigenvalues" and isinstance(parts[1], ast.Subscript) and norm(parts[1].value) == "self._eigenvalues" \
             and isinstance(parts[1].slice, ast.Slice) and parts[1].slice.upper is None and parts[1].slice.lower is not None and norm(expand(parts[1].slice.lower, d)) == cb[1]
         r.check(bool(ok and okp), t, ts, "the trimmed pool must be extended with exactly the discarded eigenvalues _eigenvalues[%s:] (found `%s`)" % (cb[1], norm(tv)[:80]),
